@@ -5,13 +5,13 @@ LEVEL = "proof"
 TITLE = "SMTP transactions are well-sequenced, isolated from each other and atomic"
 LEVEL_TEXT = ("Coq theorems over the SMTP session model for every configuration and every input sequence (item level and byte level): "
               "sequencing (MAIL needs a greeting, RCPT an open transaction, DATA an accepted recipient), envelope reset on "
-              "RSET/EHLO/end of DATA, exactly one well-formed reply group per line, no reachable panic, progress; a truncated DATA block "
-              "is never taken for a message (truncated_is_none); tied to the code by byte-level correspondence of random/garbage "
+              "RSET/EHLO/end of DATA, exactly one well-formed reply group per line, no reachable panic, progress; the cut theorem over byte streams (cut_prefix: the deliveries of every byte "
+              "prefix are a prefix of the deliveries of the whole stream; cut_store_is_entitled; truncated_is_none); tied to the code by byte-level correspondence of random/garbage "
               "dialogues and of valid dialogues cut after every byte, with the sequencing/reply-shape specifications and the C01 "
               "entitlement evaluated on the implementation's answers as oracles")
 LEVEL_NOTE = ("Coq kernel; extraction; MAIL/RCPT argument parsers and header decoding are oracle tables from the real functions; idle "
               "timeouts and TLS are not modelled (TLS disabled); panics inside third-party parsers are searched for by the garbage "
-              "stream, not proved absent; cut_prefix is stated (Proofs) but decided through truncated_is_none + entitlement oracle")
+              "stream, not proved absent")
 DESIGN_REF = "DESIGN.md §4 C03"
 RULE = ("(a) dialogues with 35% garbage/out-of-order lines between steps (mixed case, short, unknown, unimplemented, AUTH PLAIN/LOGIN "
         "sub-dialogues, the two Unicode case folds, binary), SIZE parameters; (b) every byte prefix of valid dialogues; "
@@ -19,5 +19,5 @@ RULE = ("(a) dialogues with 35% garbage/out-of-order lines between steps (mixed 
 TRUSTED = ["oracle tables for MAIL/RCPT argument parsing and header decoding are computed by the driver with the real functions",
            "loopback TCP with client half-close stands for a client that disconnects after byte k"]
 ASSUMPTIONS = ["store operations do not fail", "no idle timeout fires during a case"]
-NOT_PROVED = ["cut_prefix (deliveries of a byte prefix are a prefix of the deliveries of the whole stream) as a Coq theorem over run_bytes"]
+NOT_PROVED = []
 EXEC_TIMEOUT = {"quick": 900, "thorough": 14400}
